@@ -11,7 +11,7 @@
 #ifndef VP_MAP_CAP
 #define VP_MAP_CAP 3
 #endif
-extern "C" { void vp_model_assert_cap(bool ok); void vp_assert(bool, const char *); }
+extern "C" { void vp_model_assert_cap(bool ok); void vp_assert(bool, const char *); bool vp_bool(); }
 namespace QXmpp::Private { struct IqState; }
 template<>
 class std::unordered_map<QString, QXmpp::Private::IqState, std::hash<QString>, std::equal_to<QString>, std::allocator<std::pair<const QString, QXmpp::Private::IqState>>>
